@@ -1,6 +1,7 @@
 (** correspondence for C11: served metadata (entityID, advertised locations), which handler answers a path, and the exported
     Endpoint methods, against Idp/Router.v *)
 From Saml Require Import Base.Bytes Gen.Facts Gen.Pure Idp.Router Xml.Tree Idp.BuilderTypes Idp.Builder Idp.BuiltDoc Core.UrlPath.
+From Saml Require Gen.Nec.
 Inductive c11case :=
 | KMeta (id : Z) (k : rconf) (issuer entity : bytes) (locs : list (Z * bytes))   (* 0 SingleSignOn, 1 SingleLogout, 2 AttributeService *)
 | KRoute (id : Z) (k : rconf) (path : bytes) (h : Z)                              (* -1: no route; 0.. = HHealth, HReady, HMetadata, HCert, HCallback, HSSO, HSLO, HAttr *)
@@ -8,9 +9,15 @@ Inductive c11case :=
 | KMetaDoc (id : Z) (extra : list (string * dval)) (fn : string) (recv : option dval) (args : list dval) (fresh : list bytes) (obs : xml)
     (* the served metadata document against the translated builders of metadata.go / identityprovider.go and the generated schema *)
 | KUrl (id : Z) (u path : bytes)     (* the path component of an absolute URL: net/url's Parse(u).Path for URLs without percent-escapes *)
+| KTime (id : Z) (now : Z) (parses : list (bytes * option Z)) (nb noa layout : bytes) (err : option bytes)
+    (* the validity-window check (verif hook) against the function go2v generates from time.go; err: the message up to the first ":" *)
+| KNec (id : Z) (norms : list (bytes * bytes)) (idp : option bytes) (sp : option (option (bytes * list (list bytes)))) (sg : option (bytes * bytes * option (list bytes)))
+       (sigparam binding : bytes) (obs : bool * bool * bool * bool * bool)
+    (* provided, post necessary, redirect necessary, certificate check necessary, certificate check refuses: verif hook vs Gen/Nec.v;
+       norms: strings.Join(strings.Fields(x), "") of every certificate text used (oracle) *)
 | KDest (id : Z) (attr : bool) (eps : list (bytes * bytes * bytes)) (dest : bytes) (err : option bytes)
     (* the Destination checks (verif hooks) against the functions go2v generates from identityprovider.go: Binding, Location, ResponseLocation per endpoint *).
-Definition c11_id (c : c11case) : Z := match c with KMeta i _ _ _ _ | KRoute i _ _ _ | KEp i _ _ _ _ _ | KMetaDoc i _ _ _ _ _ _ | KDest i _ _ _ _ | KUrl i _ _ => i end.
+Definition c11_id (c : c11case) : Z := match c with KMeta i _ _ _ _ | KRoute i _ _ _ | KEp i _ _ _ _ _ | KMetaDoc i _ _ _ _ _ _ | KDest i _ _ _ _ | KUrl i _ _ | KTime i _ _ _ _ _ _ | KNec i _ _ _ _ _ _ _ => i end.
 Definition svc_code (s : service) : Z := match s with SvcSSO => 0 | SvcSLO => 1 | SvcAttr => 2 end.
 Definition h_code (h : option handler) : Z :=
   match h with None => -1 | Some HHealth => 0 | Some HReady => 1 | Some HMetadata => 2 | Some HCert => 3 | Some HCallback => 4 | Some HSSO => 5 | Some HSLO => 6 | Some HAttr => 7 end.
@@ -24,6 +31,24 @@ Definition c11_ok (c : c11case) : bool :=
       let e := {| Endpoint_path := path; Endpoint_url := url |} in beq (Endpoint_Relative e) rel && beq (Endpoint_Absolute e host) ab
   | KMetaDoc _ extra fn recv args fresh obs => built_matches_with extra fn recv args fresh [] [] "md.EntityDescriptorType" obs
   | KUrl _ u path => beq (url_path u) path
+  | KNec _ norms idp sp sg sigparam binding obs =>
+      let norm := fun x => match find (fun p => beq (fst p) x) norms with Some p => snd p | None => x end in
+      let ki cs := {| Nec.KeyInfoType_X509Data := map (fun c => {| Nec.X509DataType_X509Certificate := c |}) cs |} in
+      let idpv := option_map (fun w => {| Nec.IDPSSODescriptorType_WantAuthnRequestsSigned := w |}) idp in
+      let spv := option_map (fun d => {| Nec.EntityDescriptorType_SPSSODescriptor :=
+                     option_map (fun p => {| Nec.SPSSODescriptorType_AuthnRequestsSigned := fst p;
+                                             Nec.SPSSODescriptorType_KeyDescriptor := map (fun kd => {| Nec.KeyDescriptorType_KeyInfo := ki kd |}) (snd p) |}) d |}) sp in
+      let sgv := option_map (fun g => {| Nec.SignatureType_SignatureValue := {| Nec.SignatureValueType_Id := fst (fst g); Nec.SignatureValueType_Text := snd (fst g) |};
+                                         Nec.SignatureType_KeyInfo := option_map ki (snd g) |}) sg in
+      let '(pv, po, re, ce, cr) := obs in
+      Bool.eqb (Nec.signaturePostProvided sgv) pv && Bool.eqb (Nec.signaturePostVerificationNecessary idpv spv sgv binding) po &&
+      Bool.eqb (Nec.signatureRedirectVerificationNecessary idpv spv sigparam binding) re && Bool.eqb (Nec.certificateCheckNecessary sgv spv) ce &&
+      Bool.eqb (negb (goerr_is_nil (Nec.checkCertificate norm sgv spv))) cr
+  | KTime _ now parses nb noa layout err =>
+      let parse := fun (_ s : bytes) => match find (fun p => beq (fst p) s) parses with Some p => snd p | None => None end in
+      let upto_colon := fix go (x : bytes) : bytes := match x with [] => [] | c :: r => if Ascii.eqb c ":" then [] else c :: go r end in
+      match checkIfRequestTimeIsStillValid now parse nb noa layout, err with
+      | Some x, Some y => beq (upto_colon x) y | None, None => true | _, _ => false end
   | KDest _ attr eps dest err =>
       let l := map (fun e => {| EndpointType_Binding := fst (fst e); EndpointType_Location := snd (fst e); EndpointType_ResponseLocation := snd e |}) eps in
       let r := if attr then verifyRequestDestinationOfAttrQuery {| AttributeAuthorityDescriptorType_AttributeService := l |} {| AttributeQueryType_Destination := dest |}
